@@ -87,9 +87,10 @@ class SchedDict(dict):
 class World:
     """A fresh threaded server with one client connected to '/' and '/b'."""
 
-    def __init__(self, sched, pending_binary=False):
+    def __init__(self, sched, pending_binary=False, bystander=True):
         self.sched = sched
         self.pending_binary = pending_binary
+        self.bystander = bystander
         # (a lock patch left over by an earlier world must not leak into the
         # objects of this one)
         while _last_undo:
@@ -117,10 +118,14 @@ class World:
         self.sid = self.t.sids['/']
         self.sid_b = self.t.sids['/b']
         # a bystander on the same namespace (it keeps the namespace's tables
-        # alive while the client is being terminated)
-        self.t2 = d.open()
-        self.t2.connect('/')
-        self.t2.drain()
+        # alive while the client is being terminated); without one the
+        # namespace's tables disappear with the client - both situations
+        # hide defects the other shows
+        self.t2 = None
+        if bystander:
+            self.t2 = d.open()
+            self.t2.connect('/')
+            self.t2.drain()
         if pending_binary:
             # the client has sent the header of a binary event but not all
             # of its attachments when the terminations begin
@@ -219,15 +224,18 @@ def unwrap(w):
 def baseline_size():
     w = World(NoSched())
     w.t.lose()
-    w.t2.lose()
+    if w.t2 is not None:
+        w.t2.lose()
     w.d.transports.clear()
     unwrap(w)
     return G.measure(w.d.sio)
 
 
 def run_schedule(ctx, causes, choices, rng, bound, line_level, base,
-                 pending_binary=False):
+                 pending_binary=False, bystander=None):
     sp = None
+    if bystander is None:
+        bystander = rng.random() < 0.6 if rng is not None else True
     if rng is not None:
         sp = rng.choice([None, 0.02, 0.05, 0.1, 0.25])
         # (only with actors that feed no client frames: a frame sent while
@@ -237,7 +245,9 @@ def run_schedule(ctx, causes, choices, rng, bound, line_level, base,
             set(causes) <= {'server_disconnect', 'transport_loss'})
     sched = SC.ThreadScheduler(choices=choices, rng=rng,
                                preemption_bound=bound, switch_prob=sp)
-    w = World(sched, pending_binary)
+    w = World(sched, pending_binary, bystander)
+    ctx.count('schedules_with_a_bystander' if bystander else
+              'schedules_without_a_bystander')
     if pending_binary:
         ctx.count('schedules_with_partial_binary_packet')
     for c in causes:
@@ -255,7 +265,8 @@ def run_schedule(ctx, causes, choices, rng, bound, line_level, base,
            'labels': [[a, lbl] for a, lbl in sched.labels][-80:],
            'handler_calls': [list(h) for h in w.handler_calls],
            'gate_passed_by': len({a for a, _ in w.gate}),
-           'line_level': line_level, 'partial_binary_packet': pending_binary}
+           'line_level': line_level, 'partial_binary_packet': pending_binary,
+           'bystander': bystander}
     if sched.aborted:
         SC.report_abort(ctx, sched, wit)
         unwrap(w)
@@ -280,11 +291,12 @@ def run_schedule(ctx, causes, choices, rng, bound, line_level, base,
     m = sio.manager
     residue = []
     # the bystander is still served, then leaves too
-    by_sid = w.t2.sids.get('/')
-    if not m.is_connected(by_sid, '/') or \
-            set(sio.rooms(by_sid, '/')) != {by_sid}:
-        residue.append('bystander')
-    w.t2.lose()
+    if w.t2 is not None:
+        by_sid = w.t2.sids.get('/')
+        if not m.is_connected(by_sid, '/') or \
+                set(sio.rooms(by_sid, '/')) != {by_sid}:
+            residue.append('bystander')
+        w.t2.lose()
     w.d.clear_errors()
     if list(sio.rooms(w.sid, '/')):
         residue.append('rooms')
@@ -521,13 +533,14 @@ def disable_lines():
 
 
 def explore_dfs(ctx, causes, bound, base, limit, pending_binary=False,
-                line_level=False):
+                line_level=False, bystander=True):
     choices = []
     n = 0
     while choices is not None and n < limit and not ctx.out_of_time() \
             and not ctx.too_many_violations():
         trace, res = run_schedule(ctx, causes, choices, None, bound,
-                                  line_level, base, pending_binary)
+                                  line_level, base, pending_binary,
+                                  bystander)
         n += 1
         choices = SC.next_schedule(trace)
     return n, choices is None
@@ -551,6 +564,8 @@ def run(ctx):
     ctx.require('outcome_clean', 10)
     ctx.require('line_level_schedules', 50)
     ctx.require('context_bounded_schedules', 50)
+    ctx.require('schedules_with_a_bystander', 50)
+    ctx.require('schedules_without_a_bystander', 50)
     base = baseline_size()
     pairs = list(itertools.combinations(CAUSES, 2))
     triples = list(itertools.combinations(CAUSES, 3))
@@ -574,11 +589,12 @@ def run(ctx):
     # windows), for every pair and triple, with and without a half-received
     # binary packet; the unbounded searches follow
     ctx.extra['context_bounded'] = {}
-    for bound in (1, 2):
+
+    def context_bounded(bound):
         for i, (causes, _) in enumerate(jobs):
             if i % ctx.nshards != ctx.shard and ctx.nshards > 1:
                 continue
-            for pb in (False, True):
+            for pb, by in ((False, True), (False, False), (True, True)):
                 if pb and not set(causes) <= {'server_disconnect',
                                               'transport_loss'}:
                     continue
@@ -587,12 +603,20 @@ def run(ctx):
                 n, complete = explore_dfs(
                     ctx, causes, bound, base,
                     (400 if bound == 1 else 250) if ctx.tier == 'quick'
-                    else 20000, pending_binary=pb)
+                    else 20000, pending_binary=pb, bystander=by)
                 ctx.count('context_bounded_schedules', n)
                 ctx.extra['context_bounded'][
                     '+'.join(causes) + (' (partial binary packet)' if pb
-                                        else '') + ' <=%d' % bound] = {
+                                        else '') + ('' if by else
+                                                    ' (no bystander)') +
+                    ' <=%d' % bound] = {
                     'schedules': n, 'complete': complete}
+    context_bounded(1)
+    if ctx.tier != 'quick':
+        context_bounded(2)
+    # (quick tier: the statement-level pass comes before the two-pre-emption
+    # pass, so that a loaded machine cuts the deeper search short, not this
+    # one)
     # statement level (every statement start of server.py, base_manager.py,
     # manager.py is a pre-emption point): all schedules with at most one
     # pre-emption for every pair - windows inside a single manager method
@@ -600,7 +624,7 @@ def run(ctx):
     for i, causes in enumerate(pairs):
         if i % ctx.nshards != ctx.shard and ctx.nshards > 1:
             continue
-        if ctx.out_of_time() or ctx.time_left() < ctx.budget * 0.45:
+        if ctx.out_of_time() or ctx.time_left() < ctx.budget * 0.3:
             break
         n, complete = explore_dfs(ctx, list(causes), 1, base,
                                   350 if ctx.tier == 'quick' else 20000,
@@ -609,6 +633,12 @@ def run(ctx):
         ctx.count('line_level_schedules', n)
         ctx.extra['statement_level_bounded']['+'.join(causes)] = {
             'schedules': n, 'complete': complete}
+    # a first batch of seeded random statement-level schedules (windows that
+    # need two threads inside one manager method at once, i.e. two or more
+    # pre-emptions at statement level)
+    kline = line_batch(ctx, pairs, triples, base, ctx.shard * 10**6, 700)
+    if ctx.tier == 'quick':
+        context_bounded(2)
     # a half-received binary packet is pending while the client is terminated
     for causes in (['server_disconnect', 'transport_loss'],):
         if ctx.shard == 0 and not ctx.out_of_time():
@@ -618,7 +648,6 @@ def run(ctx):
             ctx.extra['exhaustive_pairs']['+'.join(causes) +
                                           ' (partial binary packet)'] = \
                 {'schedules': n, 'complete': complete}
-    kline = ctx.shard * 10**6
     for i, (causes, bound) in enumerate(jobs):
         if i % ctx.nshards != ctx.shard and ctx.nshards > 1:
             continue
@@ -627,7 +656,8 @@ def run(ctx):
         limit = 1200 if ctx.tier == 'quick' else 20000
         if ctx.time_left() < ctx.budget * 0.35:
             limit = min(limit, 300)
-        n, complete = explore_dfs(ctx, causes, bound, base, limit)
+        n, complete = explore_dfs(ctx, causes, bound, base, limit,
+                                  bystander=i % 2 == 0)
         ctx.extra['exhaustive_pairs']['+'.join(causes) + (
             '' if bound is None else ' (preemption bound %d)' % bound)] = \
             {'schedules': n, 'complete': complete}
